@@ -164,7 +164,93 @@ def check_c18(tier, seed, res, work):
     stats['correspondence_disagreements'] = nd
     if known:
         res.known_hits['D32'] = known
+    end_to_end_c18(tier, seed, res, work, stats)
     return stats, [cases[0][1].decode('utf-8', 'replace'), cases[1][1].decode('utf-8', 'replace')]
+
+
+def end_to_end_c18(tier, seed, res, work, stats):
+    """the three COMMANDS, not only the extractor functions: for rule files over a real project, `pathfinder ci`,
+    `pathfinder scan` and `pathfinder query --query-file` must report what `pathfinder query --query <the query as
+    written>` reports"""
+    rng = random.Random('c18e2e/%d' % seed)
+    proj, files = engine.make_project(seed + 55, 3, work + '/e2e')
+    nodes = engine.dump_graph(proj, work + '/e2e')
+    gen = querygen.QGen(rng, engine.vocab_of(nodes))
+    rdir = work + '/e2e/rules'
+    os.makedirs(rdir, exist_ok=True)
+    env = dict(ENV, HOME=work)
+    env.pop('GITHUB_ACTIONS', None)
+    rules = []
+    n = 6 if tier == 'quick' else 40
+    while len(rules) < n:
+        text, hdr, qtext, toks, ml, crlf = gen_rule_file(rng, gen)
+        if ml or '\n' in ' '.join(t for t in toks if t.startswith('"')):
+            continue
+        name = 'r%02d.cql' % len(rules)
+        open(os.path.join(rdir, name), 'wb').write(text)
+        rules.append((name, text, ' '.join(toks)))
+    def locs(payload):
+        try:
+            d = json.loads(payload)
+            return sorted((r['file'], r['line'], r['code']) for r in d.get('result_set') or [])
+        except Exception:
+            return 'unparsable'
+    def last_json(out):
+        ls = [l for l in out.decode('utf-8', 'replace').splitlines() if l.startswith('{"output"')]
+        return ls[-1] if ls else ''
+    # reference: the query as written, through --query
+    ref = {}
+    for name, text, written in rules:
+        rc, o, e = run([B + '/pathfinder', 'query', '--disable-metrics', '--project', proj, '--output', 'json', '--query', written], timeout=300, env=env)
+        ref[name] = locs(last_json(o))
+    stats['e2e_rules_with_findings'] = sum(1 for v in ref.values() if v and v != 'unparsable')
+    # query --query-file
+    for name, text, written in rules:
+        rc, o, e = run([B + '/pathfinder', 'query', '--disable-metrics', '--project', proj, '--output', 'json', '--query-file', os.path.join(rdir, name)], timeout=300, env=env)
+        stats['e2e_query_file'] += 1
+        if locs(last_json(o)) != ref[name]:
+            res.violations.append(dict(property='C18', what='`query --query-file` reports something else than the query written in the file', rule_file=text.decode('utf-8', 'replace'),
+                                       project=[(p, d.decode('utf-8', 'replace')) for p, d in files], how='pathfinder query --project P --output json --query-file F vs --query <written>'))
+            break
+    # scan: one JSON line per rule file in walk order
+    rc, o, e = run([B + '/pathfinder', 'scan', '--disable-metrics', '--project', proj, '--ruleset', rdir], timeout=600, env=env)
+    outs = [l for l in o.decode('utf-8', 'replace').splitlines() if l.startswith('{"output"')]
+    stats['e2e_scan_rules'] += len(outs)
+    order = sorted(name for name, _, _ in rules)
+    if len(outs) != len(order):
+        res.violations.append(dict(property='C18', what='`scan` answered %d of %d rule files' % (len(outs), len(order)), ruleset=[(nm, t.decode('utf-8', 'replace')) for nm, t, _ in rules],
+                                   project=[(p, d.decode('utf-8', 'replace')) for p, d in files], how='pathfinder scan --project P --ruleset R'))
+    else:
+        for name, line in zip(order, outs):
+            if locs(line) != ref[name]:
+                text = [t for nm, t, _ in rules if nm == name][0]
+                res.violations.append(dict(property='C18', what='`scan` reports something else than the query written in the file', rule_file=text.decode('utf-8', 'replace'),
+                                           project=[(p, d.decode('utf-8', 'replace')) for p, d in files], how='pathfinder scan --project P --ruleset R vs query --query <written>'))
+                break
+    # ci --output json: one entry per rule with its result
+    outp = work + '/e2e/ci.json'
+    rc, o, e = run([B + '/pathfinder', 'ci', '--disable-metrics', '--project', proj, '--ruleset', rdir, '--output', 'json', '--output-file', outp], timeout=600, env=env)
+    try:
+        rep = json.load(open(outp))
+    except Exception:
+        rep = None
+    if rep is None:
+        res.tie_broken.append('end-to-end C18: ci wrote no JSON report')
+        return
+    entries = rep if isinstance(rep, list) else rep.get('results') or rep.get('rules') or []
+    stats['e2e_ci_rules'] += len(entries)
+    if len(entries) == len(order):
+        for name, ent in zip(order, entries):
+            rs = ent.get('result', ent)
+            if isinstance(rs, str):
+                got = locs(rs)
+            else:
+                got = sorted((r['file'], r['line'], r['code']) for r in (rs.get('result_set') or [])) if isinstance(rs, dict) else 'unparsable'
+            if got != ref[name]:
+                text = [t for nm, t, _ in rules if nm == name][0]
+                res.violations.append(dict(property='C18', what='`ci` reports something else than the query written in the file', rule_file=text.decode('utf-8', 'replace'),
+                                           project=[(p, d.decode('utf-8', 'replace')) for p, d in files], how='pathfinder ci --project P --ruleset R --output json vs query --query <written>'))
+                break
 
 
 def check_c17(tier, seed, res, work):
